@@ -1,4 +1,7 @@
 import Verif.Model.StdioIn
+import Verif.Model.Json
+import Verif.Model.Rpc
+import Verif.Model.Carrier
 
 /-! # Model of the stdio writer (`StdioClient._stdin_writer`, `transports/stdio/stdio_client.py`)
 
@@ -11,98 +14,48 @@ import Verif.Model.StdioIn
         except Exception: continue                      -- dropped alone
     await stdin.aclose()                                -- when the outgoing stream has ended
 
-Code points and bytes are natural numbers (as in `Model/StdioIn.lean`, whose UTF-8 encoder and
-line splitter are reused: what the writer produces is what a reader on the other side splits).
+JSON values, the encoders (`Json.enc st`, every separator / `ensure_ascii` style) and the decoder
+are the shared ones of `Model/Json.lean` (C17); a typed envelope is an `Rpc.Msg` and its wire
+object is `Rpc.emit m` ("absent optional members omitted", C02).  Texts are `List Char` (Unicode
+scalar values); bytes are natural numbers as in `Model/StdioIn.lean`, whose UTF-8 encoder and line
+splitter are reused: what the writer produces is what a reader on the other side splits.
 
-The JSON value type and the encoder below are local to this model (a minimal compact / stdlib-style
-encoder; floats are not modelled).  The message handed to the writer is represented by the JSON
-VALUE it denotes "with absent optional members omitted"; that `model_dump_json(exclude_none=True)`
-/ `json.dumps` produce a text denoting that value is sampled by the correspondence run
-(Pydantic, orjson and stdlib `json` are outside the proof).
+That `model_dump_json(exclude_none=True)` writes `Json.enc st (Rpc.emit m)` for some style, and
+`json.dumps(d)` writes `Json.enc st d`, is the subject of C02 / C17 and is sampled here by the
+correspondence run (Pydantic, orjson and stdlib `json` are outside the proof).
 -/
 namespace Verif.Model.StdioOut
-open Verif.Model.StdioIn
-
-inductive Json where
-  | null
-  | bool (b : Bool)
-  | int (i : Int)
-  | str (s : List Nat)
-  | arr (xs : List Json)
-  | obj (kvs : List (List Nat × Json))
-
-/-- serialiser conventions: `orjson` / pydantic-core (compact, raw UTF-8) or stdlib `json.dumps`
-defaults (`", "`, `": "`, `ensure_ascii`) -/
-structure Style where
-  itemSep : List Nat
-  kvSep : List Nat
-  ascii : Bool
-
-def Style.compact : Style := { itemSep := [44], kvSep := [58], ascii := false }
-def Style.std : Style := { itemSep := [44, 32], kvSep := [58, 32], ascii := true }
-
-def hex (n : Nat) : Nat := if n < 10 then 48 + n else 87 + n
-
-/-- `\uXXXX` -/
-def u4 (n : Nat) : List Nat := [92, 117, hex (n / 4096 % 16), hex (n / 256 % 16), hex (n / 16 % 16), hex (n % 16)]
-
-def escChar (ascii : Bool) (c : Nat) : List Nat :=
-  if c = 34 then [92, 34] else if c = 92 then [92, 92]
-  else if c = 10 then [92, 110] else if c = 13 then [92, 114] else if c = 9 then [92, 116]
-  else if c = 8 then [92, 98] else if c = 12 then [92, 102]
-  else if c < 32 then u4 c
-  else if ascii && 128 ≤ c then
-    (if c < 0x10000 then u4 c else u4 (0xD800 + (c - 0x10000) / 1024) ++ u4 (0xDC00 + (c - 0x10000) % 1024))
-  else [c]
-
-def encStr (ascii : Bool) (s : List Nat) : List Nat := 34 :: (s.flatMap (escChar ascii) ++ [34])
-
-/-- decimal digits of a natural number -/
-def natDigits (n : Nat) : List Nat :=
-  if h : n < 10 then [48 + n] else natDigits (n / 10) ++ [48 + n % 10]
-termination_by n
-decreasing_by omega
-
-def intText (i : Int) : List Nat :=
-  if i < 0 then 45 :: natDigits i.natAbs else natDigits i.toNat
-
-mutual
-def enc (sty : Style) : Json → List Nat
-  | .null => [110, 117, 108, 108]
-  | .bool true => [116, 114, 117, 101]
-  | .bool false => [102, 97, 108, 115, 101]
-  | .int i => intText i
-  | .str s => encStr sty.ascii s
-  | .arr xs => 91 :: (encList sty xs ++ [93])
-  | .obj kvs => 123 :: (encKvs sty kvs ++ [125])
-def encList (sty : Style) : List Json → List Nat
-  | [] => []
-  | [x] => enc sty x
-  | x :: y :: xs => enc sty x ++ (sty.itemSep ++ encList sty (y :: xs))
-def encKvs (sty : Style) : List (List Nat × Json) → List Nat
-  | [] => []
-  | [(k, v)] => encStr sty.ascii k ++ (sty.kvSep ++ enc sty v)
-  | (k, v) :: kv :: kvs => encStr sty.ascii k ++ (sty.kvSep ++ (enc sty v ++ (sty.itemSep ++ encKvs sty (kv :: kvs))))
-end
+open Verif.Model.StdioIn Verif.Model.Json
+open Verif.Model.Carrier (codes chars)
 
 /-- what is put on the write stream -/
 inductive Outbound where
-  /-- a typed message or a plain dict, by the JSON value it denotes (absent optional members omitted) -/
+  /-- a plain dict (or any JSON-able object), by its JSON value -/
   | value (v : Json)
+  /-- a typed envelope (`JSONRPCRequest/Notification/Response/Error`, legacy `JSONRPCMessage`) -/
+  | typed (m : Rpc.Msg)
   /-- a pre-serialised string: forwarded verbatim -/
-  | raw (s : List Nat)
-  /-- an object no serialiser accepts -/
+  | raw (s : List Char)
+  /-- an object no serialiser accepts (or a string that cannot be encoded as UTF-8) -/
   | unserialisable
 
 /-- `json_str`, or `none` when serialisation raises -/
-def ser (sty : Style) : Outbound → Option (List Nat)
-  | .value v => some (enc sty v)
+def ser (st : Style) : Outbound → Option (List Char)
+  | .value v => some (enc st v)
+  | .typed m => some (enc st (Rpc.emit m))
   | .raw s => some s
   | .unserialisable => none
 
+/-- the JSON value an accepted typed / dict message denotes: the message with absent optional
+members omitted -/
+def valueOf : Outbound → Option Json
+  | .value v => some v
+  | .typed m => some (Rpc.emit m)
+  | _ => none
+
 /-- the `send()` calls on the child's stdin, in order: `f"{json_str}\n".encode()` per accepted item -/
 def sends (sty : Style) (items : List Outbound) : List (List Nat) :=
-  items.filterMap (fun it => (ser sty it).map (fun l => encode (l ++ [LF])))
+  items.filterMap (fun it => (ser sty it).map (fun l => encode (codes l ++ [LF])))
 
 /-- the bytes the child receives -/
 def childBytes (sty : Style) (items : List Outbound) : List Nat := (sends sty items).flatten
@@ -148,11 +101,28 @@ def childBytes2 (sty : Style) (items : List Outbound) (rejs : List Json) (sched 
   (mergeAll sched (sends sty items) (rejectionSends sty rejs)).flatten
 
 /-- no raw line break (LF or CR) -/
-def NoBreak (l : List Nat) : Prop := LF ∉ l ∧ CR ∉ l
+def OneLine (l : List Char) : Prop := '\n' ∉ l ∧ '\r' ∉ l
 
-/-- the guard of the property: a caller-supplied string is a *single-line* pre-serialised message -/
+/-- the guards of the property: a caller-supplied string is a *single-line* pre-serialised message;
+float tokens inside payloads are well-formed JSON numbers (floats are opaque, as in C17) -/
 def Guarded : Outbound → Prop
-  | .raw s => NoBreak s
-  | _ => True
+  | .value v => wf v = true
+  | .typed m => Rpc.wfMsg m = true
+  | .raw s => OneLine s
+  | .unserialisable => True
+
+/-- one received line back to a value: UTF-8 decoding (the reader model's decoder) then `Json.dec` -/
+def decLine (bytes : List Nat) : Option Json :=
+  match decBytes [] bytes with
+  | .ok (cs, []) => dec (chars cs)
+  | _ => none
+
+/-- what the child must find on the line of an item: `some (some v)` = a line decoding to `v`,
+`some (dec s)` for a pre-serialised string (whatever it denotes), `none` = no line -/
+def decoded : Outbound → Option (Option Json)
+  | .value v => some (some v)
+  | .typed m => some (some (Rpc.emit m))
+  | .raw s => some (dec s)
+  | .unserialisable => none
 
 end Verif.Model.StdioOut
